@@ -77,6 +77,11 @@ impl Authority {
 		let port = match maybe_port.split_once(':') {
 			Some((_, "*")) => Port::Any,
 			Some((_, p)) => {
+				// NOTE: `u16::from_str` accepts a leading `+` which is not a valid port.
+				if !p.bytes().all(|b| b.is_ascii_digit()) {
+					return Err(AuthorityError::InvalidPort(p.to_string()));
+				}
+
 				let port_u16: u16 =
 					p.parse().map_err(|e: std::num::ParseIntError| AuthorityError::InvalidPort(e.to_string()))?;
 
